@@ -38,7 +38,7 @@ in the order of their first binding in the function) and accepts, each only in t
   G5  s = '' ; s += ch ; s + ch      -> a str is the list of its code points; ord(ch) -> ch; ch in s -> py_char_in ch s;
       len(L)                         -> py_len L
   G6  for x in XS: BODY              -> fold_left (hoisted body) XS state, or py_for_res when BODY contains `raise`
-                                        (`if c: raise E` -> if c then Err E else ...)
+                                        (`if c: raise E` -> if c then Err E else ...; `pass` -> nothing)
       if c: A else: B   inside a loop -> let 'state := if c then A;state else B;state in ...   (a branch may bind new
                                         locals, which die with the branch, and may assign state variables only)
   G7  while c: BODY                  -> the two hoisted definitions _cond/_step and
